@@ -634,6 +634,9 @@ fn process_escapes_into(chars: &[char], ctx: &mut StaticsContext, file_id: FileI
                     if p + 3 < end
                         && let Some(d2) = chars.get(p + 2).cloned()
                         && let Some(d3) = chars.get(p + 3).cloned()
+                        // from_str_radix also accepts a leading sign ("\x+7")
+                        && d2.is_ascii_hexdigit()
+                        && d3.is_ascii_hexdigit()
                         && let Ok(byte) = u8::from_str_radix(&format!("{d2}{d3}"), 16)
                     {
                         s.push(byte as char);
